@@ -471,6 +471,10 @@ def monitorOp (mu : Mon) (prev : Args) (toks : List String) (implOk : Bool) (out
           (if al'.amount + amt != al.amount then [mk "C02" "C02/draw-allowance-delta" s!"{al.amount}->{al'.amount} amt={amt}"] else []) ++
           -- … and changes nothing else of it: the owner's expiry stays attached, also when the draw uses the
           -- allowance up (theorem C02.draw_exact: `{al with amount := al.amount - amt}`)
+          -- … while moving exactly that amount: the owner must hold it (also when owner and recipient coincide,
+          -- where the net change is zero) — theorem C02.draw_ok_iff (`DrawReady`: amt ≤ balance of the owner)
+          (if balOf prev owner < amt then
+            [mk "C02" "C02/draw-beyond-balance" s!"owner={owner} holds {balOf prev owner}, drawn {amt} by {kind}"] else []) ++
           (if al'.expires != al.expires then
             [mk "C02" "C02/draw-changed-expiry" s!"{al.expires.render}->{al'.expires.render} amt={amt} left={al'.amount}"] else [])
         else []
